@@ -17959,6 +17959,42 @@ pub(crate) fn hold_time_since(send_timestamp: Option<Duration>) -> Option<u32> {
 
 #[cfg(feature = "verif_hooks")]
 impl<SP: SignerProvider> FundedChannel<SP> {
+	/// Read-only dump of the monitor-update gate of this channel (C09): the `MonitorUpdateInProgress` flag, the
+	/// `monitor_pending_*` flags and held-vector lengths, `latest_monitor_update_id`, the blocked updates
+	/// (`id:kind+kind`), the peer-disconnected flag and the resend order.
+	pub(crate) fn verif_monitor_gate_dump(&self) -> String {
+		let blocked: Vec<String> = self
+			.context
+			.blocked_monitor_updates
+			.iter()
+			.map(|u| {
+				format!(
+					"{}:{}",
+					u.update.update_id,
+					crate::ln::verif_hooks::monitor_update_step_kinds(&u.update).join("+")
+				)
+			})
+			.collect();
+		format!(
+			"paused={} raa={} cs={} rdy={} adds={} fw={} fl={} ff={} latest={} blocked={} disc={} csfirst={}",
+			self.context.channel_state.is_monitor_update_in_progress() as u8,
+			self.context.monitor_pending_revoke_and_ack as u8,
+			self.context.monitor_pending_commitment_signed as u8,
+			self.context.monitor_pending_channel_ready as u8,
+			self.context.monitor_pending_update_adds.len(),
+			self.context.monitor_pending_forwards.len(),
+			self.context.monitor_pending_failures.len(),
+			self.context.monitor_pending_finalized_fulfills.len(),
+			self.context.latest_monitor_update_id,
+			if blocked.is_empty() { "-".to_string() } else { blocked.join(";") },
+			self.context.channel_state.is_peer_disconnected() as u8,
+			(self.context.resend_order == RAACommitmentOrder::CommitmentFirst) as u8,
+		)
+	}
+}
+
+#[cfg(feature = "verif_hooks")]
+impl<SP: SignerProvider> FundedChannel<SP> {
 	/// Canonical text of the hand-serialized, positional per-channel state (C12): one `chan` line (announced
 	/// `ChannelUpdateStatus`, announcement-sigs state, channel state flags, resend order, pending / holding-cell fee
 	/// update, HTLC id counters, monitor-pending flags) and one line per inbound HTLC, outbound HTLC and holding-cell
